@@ -39,6 +39,20 @@ fn c20_labels_and_opts_arms() {
     core::mem::forget((e, l, o1, o2, ex, o3, o4));
 }
 
+//@ id: c20_opts_later_map_overrides
+//@ prop: C20
+//@ tier: quick
+//@ strength: bounded(enumerated: opts!(n, h, {a: x}, {a: z}) -- one key defined by two label maps)
+//@ fn: macros::opts
+//@ obligation: when several label maps define the same key the LATER map wins, exactly as the explicit left-to-right construction does
+#[kani::proof]
+#[kani::unwind(8)]
+fn c20_opts_later_map_overrides() {
+    let o5 = opts!("n", "h", labels! {"a" => "x"}, labels! {"a" => "z"});
+    assert!(o5.const_labels.len() == 1 && o5.const_labels.get("a").map(|s| s.as_str()) == Some("z"), "C20.opts!(.., labels, labels): a later label map must override an earlier one (as the explicit left-to-right calls do)");
+    core::mem::forget(o5);
+}
+
 //@ id: c20_histogram_opts_arms
 //@ prop: C20
 //@ tier: quick
